@@ -121,6 +121,41 @@ theorem search_exact (g : Game P) (ex : Explore) (le : LeafEval) (hev : EvalOk g
   rw [← hex]
   exact ⟨_, rfl⟩
 
+/-- **C03 (the PV is not empty when it must not be).** No table hypotheses at all (no table, no cancellation).
+    At a position that is the search root (`g.ply p = rootPly`) or not drawn, searched to depth `d + 1 ≥ 1` with
+    the full window: if some move is legal and the negamax value is not `negInf` (i.e. some explored legal move
+    is better than being mated at once), the returned PV is non-empty - so its head is a best move (`pv`). -/
+theorem pv_nonempty (g : Game P) (ex : Explore) (le : LeafEval) (rootPly : Int) (hev : EvalOk g)
+    (d : Nat) (hd : leafGrade le + (d + 1) ≤ 127)
+    (p : P) (st : SState) (htt : st.tt.slots.size = 0) (hc : st.cancelAt = none)
+    (hroot : g.ply p = rootPly ∨ g.isDraw p = false)
+    (hl : legalAny g p (g.moves p) = true) (hV : V g ex le rootPly (d + 1) p ≠ negInfScore) :
+    (alphabeta g ex le rootPly (d + 1) p negInfScore infScore st).2.1 ≠ [] := by
+  intro hnil
+  have ha : okN (leafGrade le + d + 1) negInfScore := okN_mono okN_negInf (by omega)
+  have hb : okN (leafGrade le + d + 1) infScore := okN_mono okN_inf (by omega)
+  have hdraw : (!(g.ply p == rootPly) && g.isDraw p) = false := by
+    rcases hroot with h | h <;> simp [h]
+  have h7 := (alphabeta_succ_spec hev ex le rootPly (leafGrade le) (Nat.le_refl _) d (by omega)
+    (alphabeta_recOK hev ex le rootPly (leafGrade le) (Nat.le_refl _) d (by omega)) p negInfScore infScore st
+    ⟨htt, hc⟩ ha hb _ rfl).2.2.2.2.2.2 hdraw hl hnil
+  rw [exact g ex le rootPly hev (d + 1) hd p st htt hc] at h7
+  exact hV h7
+
+/-- `pv_nonempty` for `AlphaBeta.Search`: the reported PV is non-empty for `d ≥ 1` if a move is legal at the root
+    and the value is not `negInf`. -/
+theorem search_pv_nonempty (g : Game P) (ex : Explore) (le : LeafEval) (hev : EvalOk g)
+    (d : Nat) (hd : leafGrade le + (d + 1) ≤ 127)
+    (p : P) (st : SState) (htt : st.tt.slots.size = 0) (hc : st.cancelAt = none)
+    (hl : legalAny g p (g.moves p) = true) (hV : V g ex le (g.ply p) (d + 1) p ≠ negInfScore) :
+    ∃ n m rest, (alphaBetaSearch g ex le p (d + 1) invalidScore invalidScore st).1 =
+      some ⟨n, V g ex le (g.ply p) (d + 1) p, m :: rest⟩ := by
+  obtain ⟨n, hn⟩ := search_exact g ex le hev (d + 1) hd p st htt hc
+  have hne := pv_nonempty g ex le (g.ply p) hev d hd p { st with nodes := 0 } htt hc (Or.inl rfl) hl hV
+  cases hpv : (alphabeta g ex le (g.ply p) (d + 1) p negInfScore infScore { st with nodes := 0 }).2.1 with
+  | nil => exact absurd hpv hne
+  | cons m rest => rw [hpv] at hn; exact ⟨n, m, rest, hn⟩
+
 /-! ## Non-vacuity on the tiny game of C13 -/
 
 open C13 in
@@ -139,5 +174,57 @@ example : Principal tiny allMoves .static 0 2 0 [mv 1, mv 0] := by
   have := pv_principal tiny allMoves .static 0 tiny_evalOk 2 (by decide) 0 {} rfl rfl
   have e : (alphabeta tiny allMoves .static 0 2 0 negInfScore infScore {}).2.1 = [mv 1, mv 0] := by decide
   rw [e] at this; exact this
+
+-- `pv` and `search_exact` on the tiny game
+open C13 in
+example : Path tiny allMoves 2 0 (alphabeta tiny allMoves .static 0 2 0 negInfScore infScore {}).2.1 ∧
+    (alphabeta tiny allMoves .static 0 2 0 negInfScore infScore {}).2.1.length ≤ 2 :=
+  ⟨(pv tiny allMoves .static 0 tiny_evalOk 2 (by decide) 0 {} rfl rfl).1,
+   (pv tiny allMoves .static 0 tiny_evalOk 2 (by decide) 0 {} rfl rfl).2.1⟩
+
+open C13 in
+example : ∃ n, (alphaBetaSearch tiny allMoves .static 0 2 invalidScore invalidScore {}).1 =
+    some ⟨n, V tiny allMoves .static (tiny.ply 0) 2 0,
+      (alphabeta tiny allMoves .static (tiny.ply 0) 2 0 negInfScore infScore { ({} : SState) with nodes := 0 }).2.1⟩ :=
+  search_exact tiny allMoves .static tiny_evalOk 2 (by decide) 0 {} rfl rfl
+
+open C13 in
+example : (alphabeta tiny allMoves .static 0 2 0 negInfScore infScore {}).2.1 ≠ [] :=
+  pv_nonempty tiny allMoves .static 0 tiny_evalOk 1 (by decide) 0 {} rfl rfl (Or.inl rfl) (by decide) (by decide)
+
+/-! ## Non-vacuity on the chess game
+
+`gX = materialGame exZ`, `wE` = `r3k2r/1P6/8/3pP3/8/8/8/R3K2R w KQkq d6` as a new board, `capX` = captures only
+(`Morlock/Proofs/ABChessTree.lean`); `EvalOk gX` is `materialGame_evalOk`. No table, no cancellation; there are no
+further hypotheses. Depth 3 with quiescence leaves of fuel 64 is the driver's configuration `full-quiet`. -/
+
+section Chess
+
+example : (alphabeta gX fullExploration (.quiescence capX 64) 1 3 wE negInfScore infScore {}).1 =
+    V gX fullExploration (.quiescence capX 64) 1 3 wE :=
+  exact gX fullExploration (.quiescence capX 64) 1 gX_evalOk 3 (by decide) wE {} rfl rfl
+
+example : Principal gX fullExploration (.quiescence capX 64) 1 3 wE
+      (alphabeta gX fullExploration (.quiescence capX 64) 1 3 wE negInfScore infScore {}).2.1 ∧
+    (alphabeta gX fullExploration (.quiescence capX 64) 1 3 wE negInfScore infScore {}).2.1.length ≤ 3 :=
+  ⟨pv_principal gX fullExploration (.quiescence capX 64) 1 gX_evalOk 3 (by decide) wE {} rfl rfl,
+   (pv gX fullExploration (.quiescence capX 64) 1 gX_evalOk 3 (by decide) wE {} rfl rfl).2.1⟩
+
+example : ∃ n, (alphaBetaSearch gX fullExploration (.quiescence capX 64) wE 3 invalidScore invalidScore {}).1 =
+    some ⟨n, V gX fullExploration (.quiescence capX 64) (gX.ply wE) 3 wE,
+      (alphabeta gX fullExploration (.quiescence capX 64) (gX.ply wE) 3 wE negInfScore infScore
+        { ({} : SState) with nodes := 0 }).2.1⟩ :=
+  search_exact gX fullExploration (.quiescence capX 64) gX_evalOk 3 (by decide) wE {} rfl rfl
+
+set_option maxRecDepth 100000 in
+/-- `pv_nonempty` / `search_pv_nonempty`: `wE` has a legal move and its depth-1 value is `+14`, not `negInf`. -/
+example : (alphabeta gX fullExploration .static 1 1 wE negInfScore infScore {}).2.1 ≠ [] ∧
+    ∃ n m rest, (alphaBetaSearch gX fullExploration .static wE 1 invalidScore invalidScore {}).1 =
+      some ⟨n, V gX fullExploration .static (gX.ply wE) 1 wE, m :: rest⟩ :=
+  ⟨pv_nonempty gX fullExploration .static 1 gX_evalOk 0 (by decide) wE {} rfl rfl (Or.inl wE_ply) wE_legal
+      (by decide +kernel),
+   search_pv_nonempty gX fullExploration .static gX_evalOk 0 (by decide) wE {} rfl rfl wE_legal (by decide +kernel)⟩
+
+end Chess
 
 end Morlock.Props.C03
